@@ -99,8 +99,8 @@ Proof.
   eapply safe_bind; [apply safe_fhdr_unmarshal|]. intros hd Hhd.
   eapply safe_bind with (Q := fun _ => True).
   { step; repeat step; auto. }
-  intros port _. step.
-  - step; [step|]. repeat step. simpl. apply Forall_app. split; auto.
+  intros port _. step; [step|]. step.
+  - repeat step. simpl. apply Forall_app. split; auto.
   - step. simpl. rewrite app_nil_r. exact Hhd.
 Qed.
 
